@@ -2,3 +2,6 @@
 import WS.Base.Bytes
 import WS.Gen.Tables
 import WS.Props.C06
+import WS.Props.C18
+import WS.Props.C19
+import WS.Props.C20
